@@ -66,6 +66,9 @@ type Script struct {
 	// RtErr: when the instances are used up runtimeFunc returns an error of its own instead of
 	// scheduler.ErrNoMoreInstances (the goroutine's other way out of its loop; same tidy-up, same model script).
 	RtErr bool `json:"rterr,omitempty"`
+	// Yield: run against the copy of service.go with yield points before the lock acquisitions (yield_test.go);
+	// not part of the Coq term (for the model the same script)
+	Yield bool `json:"yield,omitempty"`
 	// Prefix: what the "cancelall" calls hand to CancelJobs: a prefix of the job's name ("" = "job"; "-" = the
 	// empty prefix).  For the model such a call is a CancelJobIfExists (the names are collected in one section of
 	// jobsMutex, CancelJobIfExists is then called on each).
@@ -1439,6 +1442,7 @@ type Result struct {
 	Bubbles   int      `json:"bubbles"`
 	Hung      int      `json:"hung"`
 	Crashed   string   `json:"crashed,omitempty"` // parent only: the child died on this input
+	Skipped   bool     `json:"skipped,omitempty"` // parent only: not run (the process had died on too many inputs before)
 	AsyncTimer bool    `json:"async_timer,omitempty"` // real-time items: the process had the buffered (pre-1.23) timer channels
 	Noisy     int      `json:"noisy,omitempty"`       // real-time items: repetitions discarded because the machine was late
 }
@@ -1604,7 +1608,15 @@ func realItem(i int, w Work, async bool) Result {
 
 // runChildren runs the work items in a child process (this test binary), restarted after the item on which it
 // dies; one Result per item.
+// maxCrashes: after the process has died on this many inputs the remaining inputs are left out (counted and
+// noted); the inputs run so far, the deaths among them, are reported as usual.
+const maxCrashes = 24
+
 func runChildren(t *testing.T, dir string, tag string, work []Work, env []string, crashes *int) []Result {
+	return runChildrenOf(t, os.Args[0], dir, tag, work, env, crashes)
+}
+
+func runChildrenOf(t *testing.T, binary string, dir string, tag string, work []Work, env []string, crashes *int) []Result {
 	workFile, resFile := dir+"/work_"+tag+".json", dir+"/results_"+tag+".jsonl"
 	data, _ := json.Marshal(work)
 	if err := os.WriteFile(workFile, data, 0o644); err != nil {
@@ -1613,7 +1625,7 @@ func runChildren(t *testing.T, dir string, tag string, work []Work, env []string
 	results := make([]Result, 0, len(work))
 	for len(results) < len(work) {
 		os.Remove(resFile)
-		cmd := exec.Command(os.Args[0], "-test.run", "^TestC02$", "-test.count=1", "-test.timeout", "3000s")
+		cmd := exec.Command(binary, "-test.run", "^TestC02$", "-test.count=1", "-test.timeout", "3000s")
 		cmd.Env = append(os.Environ(), "VERIF_C02_CHILD=1", "VERIF_C02_WORK="+workFile, "VERIF_C02_RESULTS="+resFile,
 			fmt.Sprintf("VERIF_C02_FROM=%d", len(results)))
 		cmd.Env = append(cmd.Env, env...)
@@ -1651,8 +1663,12 @@ func runChildren(t *testing.T, dir string, tag string, work []Work, env []string
 				msg = "child stopped early: " + msg
 			}
 			results = append(results, Result{Index: len(results), Crashed: msg})
-			if *crashes > 40 {
-				t.Fatalf("the harness process died on more than 40 inputs; last: %s", msg)
+			if *crashes > maxCrashes {
+				// every input on which the process died is reported as a panic outcome (a concrete replay each);
+				// the rest of the inputs is not run: restarting the process for each of them buys nothing more
+				for len(results) < len(work) {
+					results = append(results, Result{Index: len(results), Skipped: true})
+				}
 			}
 		}
 	}
@@ -1780,6 +1796,19 @@ func TestC02(t *testing.T) {
 			ins = append(ins, Input{Script: &sc, Tags: tags})
 		}
 	}
+	// tied scripts against the copy of service.go with yield points (yield_test.go): on top again, own stream
+	yrng := rng.Fork()
+	ny := n / 8
+	if n > 0 && ny < 16 {
+		ny = 16
+	}
+	if os.Getenv("VERIF_C02_NOYIELD") != "" {
+		ny = 0
+	}
+	for i := 0; i < ny; i++ {
+		sc, tags := genYield(yrng.Fork(), i)
+		ins = append(ins, Input{Script: &sc, Tags: tags})
+	}
 	// decide repetitions and tags
 	work := make([]Work, 0, len(ins))
 	for _, in := range ins {
@@ -1829,10 +1858,12 @@ func TestC02(t *testing.T) {
 		t.Fatal(err)
 	}
 	defer os.RemoveAll(dir)
-	var bubbleWork, realWork []Work
-	var bubbleIdx, realIdx []int
+	var bubbleWork, realWork, yieldWork []Work
+	var bubbleIdx, realIdx, yieldIdx []int
 	for i, w := range work {
-		if w.In.Script != nil && w.In.Script.Real {
+		if w.In.Script != nil && w.In.Script.Yield && !w.In.Script.Real {
+			yieldWork, yieldIdx = append(yieldWork, w), append(yieldIdx, i)
+		} else if w.In.Script != nil && w.In.Script.Real {
 			realWork, realIdx = append(realWork, w), append(realIdx, i)
 		} else {
 			bubbleWork, bubbleIdx = append(bubbleWork, w), append(bubbleIdx, i)
@@ -1840,8 +1871,36 @@ func TestC02(t *testing.T) {
 	}
 	crashes := 0
 	results := make([]Result, len(work))
+	// the instrumented copy is built while the other scripts run
+	type ybuilt struct {
+		bin, reason string
+		points      int
+	}
+	ych := make(chan ybuilt, 1)
+	if len(yieldWork) > 0 {
+		go func() {
+			b, p, why := buildYield(dir)
+			ych <- ybuilt{b, why, p}
+		}()
+	}
 	for k, r := range runChildren(t, dir, "bubble", bubbleWork, nil, &crashes) {
 		results[bubbleIdx[k]] = r
+	}
+	if len(yieldWork) > 0 {
+		yb := <-ych
+		col.Note(yieldNote(len(yieldWork), yb.points, yb.reason))
+		if yb.bin == "" {
+			col.Count("yield-points:family-left-out")
+			for _, i := range yieldIdx {
+				results[i] = Result{Index: i, Skipped: true, Crashed: "left-out"}
+			}
+		} else {
+			ycrashes := 0
+			for k, r := range runChildrenOf(t, yb.bin, dir, "yield", yieldWork, []string{"VERIF_C02_YIELD=1"}, &ycrashes) {
+				results[yieldIdx[k]] = r
+			}
+			crashes += ycrashes
+		}
 	}
 	godebug := "asynctimerchan=1"
 	if g := os.Getenv("GODEBUG"); g != "" {
@@ -1878,6 +1937,14 @@ func TestC02(t *testing.T) {
 	bubbles, hungObs := 0, 0
 	for i, w := range work {
 		res := results[i]
+		if res.Skipped {
+			if w.In.Script != nil && w.In.Script.Yield && res.Crashed == "left-out" {
+				col.Count("yield-points:script-left-out")
+			} else {
+				col.Count("input-not-run-after-too-many-process-deaths")
+			}
+			continue
+		}
 		id := col.NextID()
 		bubbles += res.Bubbles
 		hungObs += res.Hung
@@ -2012,6 +2079,10 @@ func TestC02(t *testing.T) {
 			if sc.Lag > 0 {
 				key += fmt.Sprintf(" lag%d", sc.Lag) // how far in the past the times lie is not part of the Coq term (due at once)
 			}
+		}
+		if sc.Yield {
+			col.Count("yield-points:script")
+			key += " yield" // run against the copy with yield points: for the model the same script
 		}
 		if sc.RtErr {
 			col.Count("periodic:runtimeFunc-error-exit")
